@@ -1,0 +1,6 @@
+//go:build !verif
+
+package gldap
+
+// verifYield is a no-op without the "verif" build tag (see verifhook_verif.go).
+func verifYield(string) {}
